@@ -122,5 +122,15 @@ PROPS["C19"] = {
     "assumptions": [],
 }
 
+PROPS["C18"] = {
+    "level_text": "Theorem over EVERY interleaving of Start/Inc/Done with ticks of live or stale ticker goroutines: phases in order, counts non-decreasing within a phase, nothing after a phase's final line, final line = number of Inc() calls of that phase. Observed histories of the real progressMeter (periods 1us-3ms, random delays) are validated as histories of the model; the end-to-end engine checks stdout is unchanged by --progress and the final counts equal the census.",
+    "level_note": "Partial: the real timer, scheduler and Go memory model are not modelled (the model's atomic steps are the critical sections delimited by the mutex and the atomics); trace validation is sampling.",
+    "technique": "Lean 4 proof (invariant over all interleavings) + trace validation against the real meter",
+    "modules": ["GitSizer.Props.C18"],
+    "engines": [{"name": "meter", "quick": 480, "thorough": 24000, "per_shard": 30}],
+    "rule": "scripts of 1-4 phases with 0-40 Inc() calls, ticker periods 1us/10us/100us/1ms/3ms, random spins and sleeps between calls; non-trivial = at least one tick line was observed besides the final lines.",
+    "assumptions": ["each critical section of meter.go is atomic (sync.Mutex) and count is updated atomically"],
+}
+
 NOT_APPLICABLE = {p: "check under construction in this commit; see DESIGN.md §8 for the planned machinery" for p in
                   ["C%02d" % i for i in range(1, 20)]}
